@@ -34,10 +34,16 @@ func e2ePointWait() {
 
 func e2eInstallPoint(pt *e2ePoint, run int, tr *vTrace, w *e2eWire, client func() *trzszTransfer, server *trzszTransfer,
 	f *TrzszFilter, dataDir string, emitLive func(map[string]any, func()) bool, stopAt *time.Time, addPause func(), setPaused func(bool),
-	over <-chan struct{}) {
+	over <-chan struct{}) (didFire func() bool) {
 	var mu sync.Mutex
 	count := 0
 	fired := false
+	happened := false
+	didFire = func() bool {
+		mu.Lock()
+		defer mu.Unlock()
+		return happened
+	}
 	verifHook = func(point string, args ...int) {
 		if !strings.HasPrefix(point, "pipe") {
 			return
@@ -71,6 +77,9 @@ func e2eInstallPoint(pt *e2ePoint, run int, tr *vTrace, w *e2eWire, client func(
 		if !sleepOr(pt.SettleMs) {
 			return
 		}
+		mu.Lock()
+		happened = true
+		mu.Unlock()
 		switch pt.Kind {
 		case "silence":
 			*stopAt = time.Now()
@@ -124,6 +133,7 @@ func e2eInstallPoint(pt *e2ePoint, run int, tr *vTrace, w *e2eWire, client func(
 			*stopAt = time.Now()
 		}
 	}
+	return didFire
 }
 
 // e2ePointNames: the hook points of the sending and of the receiving pipeline.
